@@ -317,7 +317,7 @@ type tierSpec struct {
 func specFor(prop, tier string) tierSpec {
 	s := tierSpec{Runs: 40000, Batch: 250, WallCap: 75 * time.Second, Seeds: 1}
 	if tier == "thorough" {
-		s = tierSpec{Runs: 1200000, Batch: 500, WallCap: 12 * time.Minute, Seeds: 3}
+		s = tierSpec{Runs: 1200000, Batch: 250, WallCap: 12 * time.Minute, Seeds: 3}
 	}
 	switch prop {
 	case "C18":
@@ -484,13 +484,15 @@ func cmdCheck(args []string) {
 	cleanup = append(cleanup, func() { os.RemoveAll(tmp) })
 
 	var (
-		mu       sync.Mutex
-		outs     []*batchOut
-		infra    []string
-		stop     bool
-		next     int
-		deadline = time.Now().Add(spec.WallCap)
-		skipped  int
+		mu         sync.Mutex
+		outs       []*batchOut
+		infra      []string
+		stop       bool
+		next       int
+		deadline   = time.Now().Add(spec.WallCap)
+		skipped    int
+		retries    int
+		retryNotes []string
 	)
 	var wg sync.WaitGroup
 	for wkr := 0; wkr < workers; wkr++ {
@@ -525,6 +527,23 @@ func cmdCheck(args []string) {
 					"GORACE=halt_on_error=0 exitcode=0 log_path="+filepath.Join(tmp, fmt.Sprintf("race-%d", wkr)),
 				)
 				b, err := cmd.CombinedOutput()
+				// A worker that dies without a result (a Go runtime fatal error was seen about once per
+				// million runs, apparently from blocked goroutines left behind in finished synctest bubbles) says
+				// nothing about the property: the batch is deterministic, so it is simply executed again in a
+				// fresh process, at most twice.
+				for attempt := 0; err != nil && attempt < 2; attempt++ {
+					if _, serr := os.Stat(outPath); serr == nil {
+						break
+					}
+					mu.Lock()
+					retries++
+					retryNotes = append(retryNotes, firstLine(string(b)))
+					mu.Unlock()
+					cmd2 := exec.Command(bi.Bin, "-test.run", "^TestWorker$", "-test.timeout", "6h")
+					cmd2.Dir = verifDir
+					cmd2.Env = cmd.Env
+					b, err = cmd2.CombinedOutput()
+				}
 				mu.Lock()
 				if err != nil {
 					infra = append(infra, fmt.Sprintf("worker seed=%d from=%d enum=%d: %v\n%s", j.seed, j.from, j.enumFrom, err, tail(string(b), 4000)))
@@ -599,10 +618,23 @@ func cmdCheck(args []string) {
 	if agg.Runs > 0 && truncated*4 > agg.Runs {
 		fmt.Printf("WARNING coverage-collapsed: %d of %d runs were cut short by events owned by other properties %v\n", truncated, agg.Runs, agg.Foreign)
 	}
+	agg.Retries, agg.RetryNotes = retries, retryNotes
 	writeEvidence(prop, tier, level, seed, agg, wall, buildS, len(confirmed), skipped, bi, workers, spec)
 	fmt.Printf("%s %s: runs=%d (enumerated %d) steps=%d simulated=%s distinct_schedules=%d interesting=%d foreign=%v step_cap=%d wall=%.1fs (build %.1fs) -> exit %d\n",
 		prop, tier, agg.Runs, agg.Enumerated, agg.Steps, time.Duration(agg.SimNs).Round(time.Second), len(agg.sched), len(agg.ints), agg.Foreign, agg.StepCap, wall, buildS, exit)
 	os.Exit(exit)
+}
+
+func firstLine(s string) string {
+	for _, l := range strings.Split(s, "\n") {
+		if strings.TrimSpace(l) != "" {
+			if len(l) > 200 {
+				l = l[:200]
+			}
+			return l
+		}
+	}
+	return ""
 }
 
 func tail(s string, n int) string {
@@ -650,6 +682,8 @@ type aggT struct {
 	Samples                                []json.RawMessage
 	Probes                                 []uint64
 	RaceReports                            []json.RawMessage
+	Retries                                int
+	RetryNotes                             []string
 }
 
 func aggregate(outs []*batchOut) *aggT {
@@ -782,6 +816,8 @@ func writeEvidence(prop, tier, level string, seed int64, a *aggT, wall, buildS f
 		"inconclusive_step_cap":         a.StepCap,
 		"known_findings_observed":       a.Known,
 		"batches_skipped_by_wall_cap":   skipped,
+		"worker_batches_re_executed":    a.Retries,
+		"worker_failures_before_retry":  a.RetryNotes,
 		"workers":                       workers,
 		"tree_hash":                     bi.Hash,
 		"block_coverage":                probeCoverage(bi, a.Probes),
